@@ -60,6 +60,27 @@ def programs(ctx):
             p.bin('Mul', 1, 4, 5)
             p.bin('Mul', 2, 1, 5)
         progs.append(p.d())
+    # after an allocation adjusted a portion that was exactly one unit (in place), products, quotients and powers
+    # whose exact result is one unit are still one unit
+    p = Prog('c02one')
+    for (t, u, qu) in (('D', 'd', F(1, 8)), ('Money', 'Z2', F(1, 100))):
+        p.make(1, t, 3 + qu, u)
+        p.num(2, F(1), 'int')
+        p.num(3, F(1), 'int')
+        p.num(4, F(1), 'int')
+        p.alloc(1, [2, 3, 4], True)
+        p.make(5, t, F(2), u)
+        p.num(6, F(2), 'int')
+        p.bin('Div', 5, 6, 5)                 # 2 u / 2
+        p.make(5, t, F(1, 2) if t == 'Money' else F(1, 2), u)
+        p.bin('Mul', 5, 6, 5)                 # 1/2 u * 2
+        p.unit(5, u)
+        p.pow(5, 1, 6)                        # u ** 1
+        if t == 'D':
+            p.make(5, 'DpB', F(1), 'dpb')
+            p.make(6, 'B', F(1), 'b')
+            p.bin('Mul', 5, 6, 5)             # 1 d/b * 1 b
+    progs.append(p.d())
     # powers and numbers
     for u in allunits:
         p = Prog('c02pow-' + u)
